@@ -614,6 +614,19 @@ def run(tape, kind):
     root = tempfile.mkdtemp(prefix='verif-c06-', dir=os.environ.get('VERIF_SCRATCH'))
     buf = tape.choice('buffer_size', [8192, 4096, 512, 64, 1 << 20])
     fs = SimFS(root, out, buffer_size=buf)
+    cwd0 = None
+    if tape.chance('same_name_file_in_cwd', 1, 4):
+        # the working directory holds unrelated, valid store files with the same base names
+        # (another run / pool with the same node names); a store is its recorded file, not
+        # whatever else is called the same
+        cwd0 = os.getcwd()
+        ddir = os.path.join(root, 'cwd')
+        os.makedirs(ddir)
+        for nm in ('a', 'n0', 'n1', 'n2'):
+            estore.NpyArray(os.path.join(ddir, nm + '.npy'),
+                            array=np.arange(24, dtype=float) + 0.5).close()
+        os.chdir(ddir)
+        out.probes['same_name_file_in_cwd'] += 1
     had_open = 'open' in estore.__dict__
     prev_open = estore.__dict__.get('open')
     estore.open = fs.open
@@ -639,6 +652,8 @@ def run(tape, kind):
         else:
             del estore.open
         gc.collect()
+        if cwd0 is not None:
+            os.chdir(cwd0)
         shutil.rmtree(root, ignore_errors=True)
     h = info.get('h')
     ops = tuple(h.opkinds) if h is not None else ()
